@@ -2,7 +2,11 @@ package main
 
 import (
 	"fmt"
+	"net"
+	"os"
 	"runtime"
+	"sync"
+	"sync/atomic"
 	"time"
 
 	"github.com/lxzan/gws"
@@ -220,6 +224,33 @@ func runC09(c *Ctx) error {
 		}
 		c.count("silent-server", true, "fault=handshake-timeout")
 	}
+	// a server that accepts the connection but stops reading (the request write stalls) on a transport whose deadlines
+	// are ineffective (tunnelled / wrapped connections): the handshake timeout must still end it, transport closed,
+	// nothing left behind
+	for _, ignoreDeadline := range []bool{true, false} {
+		tap := &stallConn{memConn: newMemConn(), ignoreDeadline: ignoreDeadline, released: make(chan struct{})}
+		base := runtime.NumGoroutine()
+		t0 := time.Now()
+		var err error
+		var conn *gws.Conn
+		ok := runWithTimeout(5*time.Second, func() {
+			conn, _, err = gws.NewClientFromConn(&recHandler{}, &gws.ClientOption{Addr: "ws://mem.test/", HandshakeTimeout: 150 * time.Millisecond}, tap)
+		})
+		closed, _ := tap.isClosed()
+		tag := fmt.Sprintf("client handshake, request write stalls, deadlines ignored=%v", ignoreDeadline)
+		replay := map[string]any{"tag": tag, "elapsed_ms": time.Since(t0).Milliseconds(), "err": fmt.Sprint(err)}
+		switch {
+		case !ok:
+			c.oracleFail("did not return within 5 s (timeout 150 ms) ["+tag+"]", "handshake-timeout", replay)
+			_ = tap.Close()
+		case err == nil || conn != nil || !closed:
+			c.oracleFail(fmt.Sprintf("err=%v conn=%v transport closed=%v [%s]", err, conn != nil, closed, tag), "handshake-error-path", replay)
+		}
+		if n := settleGoroutines(base); n > base {
+			c.oracleFail(fmt.Sprintf("%d goroutine(s) left behind after a handshake whose request write stalled [%s]", n-base, tag), "goroutine-leak", replay)
+		}
+		c.count(tag, true, "fault=handshake-write-stall")
+	}
 	// D10 (known finding): a local close blocks behind a writer stalled inside the transport
 	{
 		spec := connSpec{Server: true}
@@ -248,3 +279,37 @@ func runC09(c *Ctx) error {
 	}
 	return nil
 }
+
+// stallConn: Write blocks until the connection is closed (or, when deadlines are honoured, until the write deadline).
+type stallConn struct {
+	*memConn
+	ignoreDeadline bool
+	once           sync.Once
+	released       chan struct{}
+	dl             atomic.Value // time.Time
+}
+
+func (s *stallConn) Write(p []byte) (int, error) {
+	var timer <-chan time.Time
+	if d, ok := s.dl.Load().(time.Time); ok && !s.ignoreDeadline && !d.IsZero() {
+		timer = time.After(time.Until(d))
+	}
+	select {
+	case <-s.released:
+		return 0, net.ErrClosed
+	case <-timer:
+		return 0, os.ErrDeadlineExceeded
+	}
+}
+func (s *stallConn) Close() error {
+	s.once.Do(func() { close(s.released) })
+	return s.memConn.Close()
+}
+func (s *stallConn) SetDeadline(t time.Time) error {
+	s.dl.Store(t)
+	if s.ignoreDeadline {
+		return nil
+	}
+	return s.memConn.SetDeadline(t)
+}
+func (s *stallConn) SetWriteDeadline(t time.Time) error { s.dl.Store(t); return nil }
